@@ -195,6 +195,7 @@ TEMPLATES = {
     'undef': (b'#define U 1\nU\n#undef U\nU U{0}\n#define U 2\nU\n', [b'x _']),
     'comments.strings': (b'a = "x // y"; // c{0} AB\nb = "/* z */"; /* m{1}\n n */ c = 1;\n#define AB 2\nd = "AB" + AB; e\\\nf\n', [b'"/*x', b'"*/n']),
     'inactive.directives': (b'#ifdef NOPE\n#define HID 1\n#undef KEEP\nhidden {0}\n#endif\n#define KEEP 3\nHID KEEP\n', [b'/a#(']),
+    'undef.conditional': (b'#define KEEP 1\n#define DROP 2\n#define DROP2 4\n#ifdef NOPE\n#undef KEEP\n#endif\n#ifndef NOPE\n#undef DROP\n#else\n#undef KEEP\n#endif\n#ifdef KEEP\n#undef DROP2\n#endif\nKEEP DROP DROP2{0}\n', [b' x_']),
     'empty.args': (b'#define E(a) <a>\n#define Z() z\nE() E( ) Z() E({0})\n', [b'1 ,']),
 }
 
@@ -282,7 +283,7 @@ def run(ctx):
         m = re.search(r"preprocessing (b'(?:[^'\\]|\\.)*'|b\"(?:[^\"\\]|\\.)*\") gives tokens .*, reference expansion (\[.*\])$", v.get('msg', ''), re.S)
         if not m: return None
         return dict(kind='pp', hex=eval(m.group(1)).hex(), expect=[t.decode('latin1') for t in eval(m.group(2))])
-    r = oblig.run('expand.diff', [(k, expand_case(h, k)) for k in TEMPLATES], ctx, funcs, '%d templates (object-like and function-like macros, #/##, nested calls, conditionals, #undef, comments and strings, inactive directives, empty arguments), each with 1-2 symbolic characters from small alphabets' % len(TEMPLATES),
+    r = oblig.run('expand.diff', [(k, expand_case(h, k)) for k in TEMPLATES], ctx, funcs, '%d templates (object-like and function-like macros, #/##, nested calls, conditionals, #undef at top level and inside active / inactive branches, comments and strings, inactive directives, empty arguments), each with 1-2 symbolic characters from small alphabets' % len(TEMPLATES),
                   assumptions=['reference expander: props/C13.py RefPP (written from the property statement); comparison is token-wise, whitespace outside strings and #line marker lines are ignored', 'allocation failure is out of scope'], case_timeout=900,
                   keyfn=lambda cid, v, rr: 'expand.diff:%s:%s' % (cid, v.get('msg', '')[:40].replace(' ', '_')), replayfn=rep, step_limit=100_000_000, sample_fn=lambda rr: dict(source=rr.get('text')) if rr.get('text') else None)
     if r:
